@@ -79,7 +79,16 @@ def s_K1(eng, t, a, b, s):
     return GZ(to_real(t) - to_real(b), s) - GZ(to_real(t) - to_real(a), s)
 
 
+def forall_n(n):
+    def f(eng, clo):
+        vs = [z3.Int("q!%d_%d" % (n, k)) for k in range(n)]
+        body = eng.truth(eng.call(clo, vs))
+        return z3.ForAll(vs, to_z3(body))
+    return f
+
+
 SPEC_FUNCS = {
+    "forall1": forall_n(1), "forall2": forall_n(2),
     "implies": s_implies, "And": s_and, "Or": s_or, "Not": s_not, "ite": s_ite,
     "ZERO": s_ZERO, "sumsq": s_sumsq, "Phi": s_Phi, "K2": s_K2, "K1": s_K1,
 }
